@@ -820,6 +820,24 @@ func c16(run *ev.Run, tier string) {
 			}
 		}
 	}
+	// part 5c: an item that is empty as written is an item that expands to nothing (also
+	// when no other item of the list changes); an item repeated next to itself stays
+	{
+		y := "name: items\narch: amd64\nversion: 1.0.0\ndepends:\n  - first\n  - \"\"\n  - last\nprovides:\n  - dup\n  - dup\n  - other\n  - dup\nconflicts:\n  - \"\"\nreplaces:\n  - \"  \"\n  - only\n"
+		run.Case("empty-and-repeated-list-items", true)
+		cfg, err := parseYAML(y, nil)
+		if err != nil {
+			run.Violate("C16/list-item/parse-error", map[string]any{"error": err.Error()})
+		} else {
+			want := map[string][]string{"depends": {"first", "last"}, "provides": {"dup", "dup", "other", "dup"}, "conflicts": {}, "replaces": {"only"}}
+			got := map[string][]string{"depends": cfg.Depends, "provides": cfg.Provides, "conflicts": cfg.Conflicts, "replaces": cfg.Replaces}
+			for k, w := range want {
+				if strings.Join(got[k], "\x00") != strings.Join(w, "\x00") || len(got[k]) != len(w) {
+					run.Violate("C16/list-item/empty-or-repeated-item-mishandled", map[string]any{"list": k, "got": got[k], "want": w})
+				}
+			}
+		}
+	}
 	// part 6: the command line tool. Values of environment variables arrive whole (an '='
 	// is an ordinary character of a value), and a document read from the standard input
 	// is held to the same strictness as one read from a file
